@@ -1,10 +1,12 @@
 pub mod map;
+pub mod misc;
 pub mod vlq;
 
 pub fn dispatch(t: &[&str]) -> String {
     match t[0] {
         "vlq.enc" | "vlq.dec" | "vlq.range" => vlq::run(t),
         "map.dec" | "map.enc" | "map.rt" | "map.lookup" => map::run(t),
+        "relpath" => misc::run(t),
         _ => "bad-op".into(),
     }
 }
